@@ -20,6 +20,9 @@ inductive Stmt
   | tryFinally (body fin : List Stmt)
   /-- `if`: either branch -/
   | ite (a b : List Stmt)
+  /-- `if v is not None` on the variable of slot `v`: the first branch runs when the slot
+  is live, the second when it is not -/
+  | ifLive (v : Nat) (a b : List Stmt)
   /-- `for` / `while`: zero or more times -/
   | loop (body : List Stmt)
 deriving Repr
